@@ -359,6 +359,47 @@ def cli_case(case, env):
         if got[1] != ref[1] or got[0] != ref[0]:
             env.viol("C08:sort:differs-from-single-threaded", "--sort path output differs from -j1 --sort path",
                      {"kind": "cli", "seed": case["seed"], "argv": sargs})
+    # line terminators other than LF: the blocks and what stands between them
+    # must not depend on the thread count either
+    tname = rng.pick(["crlf", "nul"])
+    term = b"\r\n" if tname == "crlf" else b"\0"
+    t2 = os.path.join(env.tmp, "t2")
+    os.makedirs(t2)
+    for i in range(rng.range(4, 12)):
+        lines = [(rng.pick(WORDS) + " %d" % j).encode() for j in range(rng.range(1, 30))]
+        with open(os.path.join(t2, "g%02d.txt" % i), "wb") as f:
+            f.write(term.join(lines) + term)
+    targs = ["--no-config", "--color", "never", "--heading", "-n"] + (["--crlf"] if tname == "crlf" else ["--null-data", "-a"])
+    tref = common.run_rg(targs + ["-j1", "-e", "needle", "t2"], env.tmp, env.home, timeout=120)
+    for n in rng.sample([2, 3, 4, 8, 16], 2):
+        rep["evaluations"] += 1
+        tgot = common.run_rg(targs + ["-j%d" % n, "-e", "needle", "t2"], env.tmp, env.home, timeout=120)
+        if tref is None or tgot is None:
+            env.inconclusive("watchdog")
+            continue
+        env.count("rg_runs")
+        env.count("terminator_runs_" + tname)
+        sep = b"\n" if tname == "crlf" else b"\0"
+        a = sorted(tref[1].split(sep))
+        b = sorted(tgot[1].split(sep))
+        if a == b and tref[0] == tgot[0]:
+            continue
+        # known shape: the line between two files' blocks is written with the
+        # search's terminator by -j1 and always as a bare LF otherwise
+        if tname == "crlf":
+            norm = sorted(x if x != b"\r" else b"" for x in a)
+            same = norm == b
+        else:
+            same = sorted(tref[1].split(sep)) == sorted(tgot[1].replace(b"\0\n", b"\0\0").split(sep))
+        rp2 = {"kind": "cli", "seed": case["seed"], "argv": targs + ["-j%d" % n, "-e", "needle", "t2"],
+               "single": esc(tref[1][:1500]), "multi": esc(tgot[1][:1500])}
+        if same and tref[0] == tgot[0]:
+            env.viol("C08:file-separator-terminator-differs-under-crlf-or-null-data",
+                     "--heading with %s: -j1 ends the line between files with the search's terminator, -j%d with LF" % (
+                         "--crlf" if tname == "crlf" else "--null-data", n), rp2)
+        else:
+            env.viol("C08:heading-%s:blocks-differ-from-single-threaded" % tname,
+                     "-j%d output is not a permutation of the -j1 records" % n, rp2)
     env.sample({"files": nfiles, "walk_args": wargs, "roots": len(roots), "pattern": pattern, "modes": [m[0] for m in modes], "threads": threads,
                 "repetitions": reps})
 
